@@ -2189,3 +2189,74 @@ mod tests {
         res
     }
 }
+
+/// Verification hooks: read-only access to the allocator's pure size-class helpers and constants.
+/// Only compiled with the `verif-hooks` feature, adds nothing to normal builds.
+#[cfg(feature = "verif-hooks")]
+pub mod verif_hooks {
+    use super::Dlmalloc;
+
+    pub const MALLOC_ALIGNMENT: usize = Dlmalloc::MALLOC_ALIGNMENT;
+    pub const CHUNK_OVERHEAD: usize = Dlmalloc::CHUNK_OVERHEAD;
+    pub const MIN_CHUNK_SIZE: usize = Dlmalloc::MIN_CHUNK_SIZE;
+    pub const MIN_REQUEST: usize = Dlmalloc::MIN_REQUEST;
+    pub const MAX_REQUEST: usize = Dlmalloc::MAX_REQUEST;
+    pub const NSMALLBINS: usize = super::NSMALLBINS;
+    pub const NTREEBINS: usize = super::NTREEBINS;
+    pub const SMALLBIN_SHIFT: usize = super::SMALLBIN_SHIFT;
+    pub const TREEBIN_SHIFT: usize = super::TREEBIN_SHIFT;
+    pub const PAGE_SIZE: usize = super::PAGE_SIZE;
+
+    #[must_use]
+    pub fn align_up(a: usize, alignment: usize) -> usize {
+        super::align_up(a, alignment)
+    }
+    #[must_use]
+    pub fn left_bits(x: u32) -> u32 {
+        super::left_bits(x)
+    }
+    #[must_use]
+    pub fn least_bit(x: u32) -> u32 {
+        super::least_bit(x)
+    }
+    #[must_use]
+    pub fn leftshift_for_tree_index(x: u32) -> u32 {
+        super::leftshift_for_tree_index(x)
+    }
+    #[must_use]
+    pub fn pad_request(amt: usize) -> usize {
+        Dlmalloc::pad_request(amt)
+    }
+    #[must_use]
+    pub fn request2size(req: usize) -> usize {
+        Dlmalloc::request2size(req)
+    }
+    #[must_use]
+    pub fn small_index(size: usize) -> u32 {
+        Dlmalloc::small_index(size)
+    }
+    #[must_use]
+    pub fn small_index2size(idx: u32) -> usize {
+        Dlmalloc::small_index2size(idx)
+    }
+    #[must_use]
+    pub fn is_small(s: usize) -> bool {
+        Dlmalloc::is_small(s)
+    }
+    #[must_use]
+    pub fn is_aligned(a: usize) -> bool {
+        Dlmalloc::is_aligned(a)
+    }
+    #[must_use]
+    pub fn align_offset_usize(addr: usize) -> usize {
+        Dlmalloc::align_offset_usize(addr)
+    }
+    #[must_use]
+    pub fn mmap_align(a: usize) -> usize {
+        Dlmalloc::mmap_align(a)
+    }
+    #[must_use]
+    pub fn compute_tree_index(size: usize) -> u32 {
+        Dlmalloc::compute_tree_index(size)
+    }
+}
